@@ -10,7 +10,7 @@ THEOREMS = ["Mesa.Cells." + t for t in (
     "C06_remove_leaves_cell", "C06_direction_map_generated", "C06_invariant_all_histories",
     "C18_cells_setCell_reject_unchanged", "C18_cells_moveTo_reject_unchanged", "C18_cells_moveRelative_reject_unchanged",
     "C18_cells_gridMove_reject_unchanged", "C18_cells_rejected_call_is_noop")]
-COUNTS = {"quick": 1500, "thorough": 40000}
+COUNTS = {"quick": 1500, "thorough": 100000}
 TRUSTED = [
     "Python object identity of cells/agents is modelled by names (cell key in space._cells, agent creation index)",
     "list.append/list.remove/len on Cell._agents, dict insertion order of Cell.connections and space._cells",
